@@ -1,0 +1,44 @@
+//go:build verif
+
+package ddata
+
+// Machine-checked contracts for the CRDT wire codec (property C40), counters,
+// flag and last-writer-wins register. Comment-only file. Read by /verif/govc.
+
+//@ property C40
+//@ load github.com/tochemey/goakt/v4/crdt github.com/tochemey/goakt/v4/internal/internalpb
+
+//@ func encodeGCounter(c)
+//@   requires c != nil && c.state != nil
+//@   ensures carries-every-slot: result != nil && forall k string :: has(result.State, k) == has(c.state, k) && (has(c.state, k) ==> result.State[k] == c.state[k])
+
+//@ func decodeGCounter(pb)
+//@   ensures rebuilds-every-slot: pb != nil ==> result != nil && forall k string :: has(result.state, k) == has(pb.State, k) && (has(pb.State, k) ==> result.state[k] == pb.State[k])
+
+//@ func encodePNCounter(c)
+//@   requires c != nil && c.increments != nil && c.decrements != nil && c.increments.state != nil && c.decrements.state != nil
+//@   ensures carries-both-halves: result != nil && result.Increments != nil && result.Decrements != nil && (forall k string :: has(result.Increments.State, k) == has(c.increments.state, k) && (has(c.increments.state, k) ==> result.Increments.State[k] == c.increments.state[k])) && (forall k string :: has(result.Decrements.State, k) == has(c.decrements.state, k) && (has(c.decrements.state, k) ==> result.Decrements.State[k] == c.decrements.state[k]))
+
+//@ func encodeFlag(f)
+//@   requires f != nil
+//@   ensures carries-the-flag: result != nil && result.Enabled == f.enabled
+
+//@ func decodeFlag(pb)
+//@   ensures rebuilds-the-flag: result != nil && (pb != nil ==> result.enabled == pb.Enabled)
+
+// last-writer-wins register: timestamp and node id travel verbatim, the value
+// through the configured serializer (whose round trip is C25, not claimed)
+//@ ghost local lww_ser_err error
+//@ func encodeLWWRegister(r, serializer)
+//@   requires r != nil
+//@   ghost entry lww_ser_err = nil
+//@   at call 1 of invoke Serialize assert serializes-the-registers-value: arg1 == r.value
+//@   at call 1 of invoke Serialize ghost lww_ser_err = result1
+//@   ensures carries-the-causal-metadata: lww_ser_err == nil ==> result0 != nil && result0.TimestampNanos == r.timestamp && result0.NodeId == r.nodeID
+//@   ensures a-serializer-error-yields-no-value: lww_ser_err != nil ==> result0 == nil
+
+//@ ghost local lww_de_err error
+//@ func decodeLWWRegister(pb, serializer)
+//@   ghost entry lww_de_err = nil
+//@   at call 1 of invoke Deserialize ghost lww_de_err = result1
+//@   ensures rebuilds-the-causal-metadata: lww_de_err == nil && pb != nil ==> result0 != nil && result0.timestamp == pb.TimestampNanos && result0.nodeID == pb.NodeId
